@@ -14,12 +14,12 @@ Theorem C04_constants : IRR = Z.to_N Consts.IRREVOCABLY_RESOLVED /\ IRR = 100 /\
                         RETRY = Z.to_N Consts.CONFIRMATIONS_BEFORE_RETRY /\ RETRY = 6.
 Proof. repeat split. Qed.
 
-(* 1. check_confirmations over the snapshot of the table *)
+(* 1. check_confirmations over the snapshot of the table: it never aborts, reports exactly the
+   trackers `completes` selects (in table order), confirms exactly those whose penalty is in the
+   block and takes them out of the reorged set; nothing else changes (cc_result) *)
 Theorem C04_check_conf_loop_spec le txids h t comp0 :
   Inv t ->
-  if existsb (underflows txids h (reorged t)) (db_trks t)
-  then exists t', check_conf_loop le txids h (db_trks t) t comp0 = Abort S_r_confirmations_underflow t'
-  else check_conf_loop le txids h (db_trks t) t comp0 = Ok (comp0 ++ completed_list txids h t) (cc_result txids h t).
+  check_conf_loop le txids h (db_trks t) t comp0 = Ok (comp0 ++ completed_list txids h t) (cc_result txids h t).
 Proof. exact (check_conf_loop_spec le txids h t comp0). Qed.
 
 Theorem C04_in_completed_list txids h t uuid :
@@ -30,16 +30,23 @@ Proof. exact (in_completed_list txids h t uuid). Qed.
 Theorem C04_completes_iff txids h rg k :
   completes txids h rg k = true <->
   memN (t_penalty k) txids = false /\ mem_uuid (trk_uuid k) rg = false /\ t_conf k = true /\
-  t_height k <= h /\ h - t_height k = IRR.
+  t_height k + IRR = h.
 Proof. exact (completes_iff txids h rg k). Qed.
 
-Theorem C04_check_conf_loop_aborts_iff le txids h t comp0 :
-  Inv t ->
-  ((exists s t', check_conf_loop le txids h (db_trks t) t comp0 = Abort s t') <->
-   (exists k, In k (db_trks t) /\ memN (t_penalty k) txids = false /\
-              mem_uuid (trk_uuid k) (reorged t) = false /\ t_conf k = true /\ h < t_height k)) /\
-  (forall s t', check_conf_loop le txids h (db_trks t) t comp0 = Abort s t' -> s = S_r_confirmations_underflow).
-Proof. exact (check_conf_loop_aborts_iff le txids h t comp0). Qed.
+(* the code's own reading: current_height.saturating_sub(h) == IRREVOCABLY_RESOLVED *)
+Theorem C04_completes_iff_sub txids h rg k :
+  completes txids h rg k = true <->
+  memN (t_penalty k) txids = false /\ mem_uuid (trk_uuid k) rg = false /\ t_conf k = true /\
+  h - t_height k = IRR.
+Proof. exact (completes_iff_sub txids h rg k). Qed.
+
+Theorem C04_check_conf_loop_abort_site le txids h snap t comp0 s t' :
+  check_conf_loop le txids h snap t comp0 = Abort s t' -> s = S_r_confirm_update_unwrap.
+Proof. exact (check_conf_loop_abort_site le txids h snap t comp0 s t'). Qed.
+
+Theorem C04_check_conf_loop_never_aborts le txids h t comp0 s t' :
+  Inv t -> check_conf_loop le txids h (db_trks t) t comp0 <> Abort s t'.
+Proof. exact (check_conf_loop_never_aborts le txids h t comp0 s t'). Qed.
 
 (* 2. completion = deletion with refund of exactly the appointment's slots; nothing else refunds *)
 Theorem C04_completes_iff_100 le sc t b h t' :
@@ -47,7 +54,7 @@ Theorem C04_completes_iff_100 le sc t b h t' :
   (forall k, In k (db_trks t) ->
      (In (trk_uuid k) (completed_list (keys_of (ib_data b)) h t) <->
       memN (t_penalty k) (keys_of (ib_data b)) = false /\ mem_uuid (trk_uuid k) (reorged t) = false /\
-      t_conf k = true /\ t_height k <= h /\ h - t_height k = IRR)) /\
+      t_conf k = true /\ t_height k + IRR = h)) /\
   (forall u, In u (completed_list (keys_of (ib_data b)) h t) ->
      find_trk (db_trks t') u = None /\ find_app (db_apps t') u = None /\ exists a, find_app (db_apps t) u = Some a) /\
   (forall u, aget (gk_users t') u =
@@ -152,6 +159,34 @@ Theorem C04_rebroadcast_restamps_now le sc t b h t' u k :
   find_trk (db_trks t') u = Some (restamp k h false).
 Proof. exact (rebroadcast_restamps_now le sc t b h t' u k). Qed.
 
+Theorem C04_resent_every_6th_block le t0 U k0 bs :
+  Inv t0 -> reorged t0 = [] -> car_memo t0 = [] ->
+  find_trk (db_trks t0) U = Some k0 -> t_conf k0 = false ->
+  (forall k', In k' (db_trks t0) -> t_penalty k' = t_penalty k0 -> trk_uuid k' = U) ->
+  gk_height t0 < t_height k0 + RETRY ->
+  (forall b, In b bs -> ~ In (t_penalty k0) (snd (fst b)) /\
+                        forall a, In a (db_apps t0) -> ~ In (a_loc a) (snd (fst b))) ->
+  stays le U t0 bs ->
+  forall i, (0 < i <= length bs)%nat ->
+    let ti := fst (run le t0 (connects (firstn i bs))) in
+    let H := gk_height t0 + N.of_nat i in
+    gk_height ti = H /\
+    ((exists r, In (mk_rpc K_send (t_penalty k0) r) (rpc_log ti)) <-> (exists j, 0 < j /\ H = t_height k0 + RETRY * j)) /\
+    (exists q, find_trk (db_trks ti) U = Some (restamp k0 (t_height k0 + RETRY * q) false) /\
+               H < t_height k0 + RETRY * q + RETRY /\ (q = 0 \/ t_height k0 + RETRY * q <= H)).
+Proof. exact (resent_every_6th_block le t0 U k0 bs). Qed.
+
+(* the responder submits nothing else while connecting a block *)
+Theorem C04_responder_sends_justified le sc t b h t' ev :
+  Inv t -> r_block_connected le sc t b h = Ok tt t' -> In ev (rpc_log t') ->
+  In ev (rpc_log t) \/
+  (r_kind ev = K_send /\
+   ((exists k, In k (db_trks t) /\ In (trk_uuid k) (reorged t) /\ memN (t_penalty k) (keys_of (ib_data b)) = false /\
+               (r_tx ev = t_dispute k \/ r_tx ev = t_penalty k)) \/
+    (exists k, In k (db_trks t) /\ t_conf k = false /\ t_height k + RETRY <= h /\
+               memN (t_penalty k) (keys_of (ib_data b)) = false /\ r_tx ev = t_penalty k))).
+Proof. exact (responder_sends_justified le sc t b h t' ev). Qed.
+
 (* 6. a penalty that never confirms is never refunded *)
 Theorem C04_never_completes_unconfirmed txids h t k :
   Inv t -> In k (db_trks t) -> t_conf k = false -> ~ In (trk_uuid k) (completed_list txids h t).
@@ -161,7 +196,9 @@ Print Assumptions C04_constants.
 Print Assumptions C04_check_conf_loop_spec.
 Print Assumptions C04_in_completed_list.
 Print Assumptions C04_completes_iff.
-Print Assumptions C04_check_conf_loop_aborts_iff.
+Print Assumptions C04_completes_iff_sub.
+Print Assumptions C04_check_conf_loop_abort_site.
+Print Assumptions C04_check_conf_loop_never_aborts.
 Print Assumptions C04_completes_iff_100.
 Print Assumptions C04_step_connect_refunds.
 Print Assumptions C04_refund_only_on_completion.
@@ -170,6 +207,8 @@ Print Assumptions C04_disconnect_marks_exactly.
 Print Assumptions C04_reorg_reannounce.
 Print Assumptions C04_rebroadcast_cadence.
 Print Assumptions C04_rebroadcast_restamps_now.
+Print Assumptions C04_resent_every_6th_block.
+Print Assumptions C04_responder_sends_justified.
 Print Assumptions C04_never_completes_unconfirmed.
 
 (* ---------- non-vacuity ---------- *)
